@@ -294,5 +294,501 @@ mod verif_inflate_core {
         kani::cover!(zlib && ignore && r0.check_adler32 != r0.z_adler32, "COV:prologue.ignored_mismatch");
     }
 
+
+    // ------------------------------------------------------------------
+    // K-arms : one evaluation of a generate_state! arm body (wrappers verif_arm_<State> are generated mechanically
+    // from the text of decompress_with_limit on every run) from a fully symbolic decoder object, symbolic registers,
+    // flags, positions and budget. Callees with unbounded loops over symbolic tables are replaced by contract
+    // models. Input <= 8 bytes, output <= 32 bytes (bounded), everything else complete.
+    // ------------------------------------------------------------------
+    const AIN: usize = 8;
+    const AOUT: usize = 32;
+
+    /// invariant of the register file between arms: at most 64 buffered bits (so shifts are defined) and no stray
+    /// bits above num_bits (re-established by every reader: checked as a postcondition of each arm).
+    fn inv_l(l: &LocalVars) -> bool { l.num_bits <= 64 && (l.num_bits == 64 || l.bit_buf >> l.num_bits == 0) }
+    fn any_l() -> LocalVars {
+        let l = LocalVars { bit_buf: kani::any(), num_bits: kani::any(), dist: kani::any(), counter: kani::any(), num_extra: kani::any() };
+        kani::assume(inv_l(&l));
+        l
+    }
+    /// unread bit stream as (value of the first <=64 bits, number of bits) -- bits in the bit buffer first, then input
+    fn bits_view(l: &LocalVars, rest: &[u8]) -> (u128, u32) {
+        // exact: num_bits <= 64 and at most AIN = 8 input bytes => at most 128 bits
+        let mut v = l.bit_buf as u128;
+        let mut n = l.num_bits;
+        let mut k = 0;
+        while k < AIN { if k < rest.len() && n <= 120 { v |= (rest[k] as u128) << n; n += 8; } k += 1; }
+        (v, n)
+    }
+
+    /// apply_match / transfer contract model: asserts the callee's precondition at the real call site, then writes
+    /// the RFC 1951 copy semantics for ONE observed byte (sound for assertions about that byte) via a ghost index.
+    static AM_CALLS: ::core::sync::atomic::AtomicUsize = ::core::sync::atomic::AtomicUsize::new(0);
+    static AM_POS: ::core::sync::atomic::AtomicUsize = ::core::sync::atomic::AtomicUsize::new(0);
+    static AM_LEN: ::core::sync::atomic::AtomicUsize = ::core::sync::atomic::AtomicUsize::new(0);
+    static AM_SRC: ::core::sync::atomic::AtomicUsize = ::core::sync::atomic::AtomicUsize::new(0);
+    fn model_transfer(out_slice: &mut [u8], source_pos: usize, out_pos: usize, match_len: usize, out_buf_size_mask: usize) {
+        use ::core::sync::atomic::Ordering::Relaxed;
+        assert!(out_pos <= out_slice.len() && match_len <= out_slice.len() - out_pos, "OBL:arms.transfer_pre_destination_in_bounds [C05 C08]");
+        if out_buf_size_mask == usize::MAX {
+            assert!(source_pos < out_pos, "OBL:arms.transfer_pre_flat_source_before_destination [C05 C04]");
+        } else {
+            assert!(out_buf_size_mask.wrapping_add(1) == out_slice.len() && source_pos <= out_buf_size_mask, "OBL:arms.transfer_pre_ring_geometry [C05]");
+        }
+        AM_CALLS.fetch_add(1, Relaxed); AM_POS.store(out_pos, Relaxed); AM_LEN.store(match_len, Relaxed); AM_SRC.store(source_pos, Relaxed);
+    }
+    fn model_apply_match(out_slice: &mut [u8], out_pos: usize, dist: usize, match_len: usize, out_buf_size_mask: usize) {
+        assert!(dist >= 1, "OBL:arms.apply_match_pre_distance_positive [C05]");
+        let source_pos = out_pos.wrapping_sub(dist) & out_buf_size_mask;
+        model_transfer(out_slice, source_pos, out_pos, match_len, out_buf_size_mask);
+    }
+    /// init_tree contract model: Some(Jump(..)) or rejection; never panics (its own contract: K-inittree / assumed)
+    static IT_CALLS: ::core::sync::atomic::AtomicUsize = ::core::sync::atomic::AtomicUsize::new(0);
+    fn model_init_tree(r: &mut DecompressorOxide, l: &mut LocalVars) -> Option<Action> {
+        IT_CALLS.fetch_add(1, ::core::sync::atomic::Ordering::Relaxed);
+        assert!(r.block_type <= 2, "OBL:arms.init_tree_pre_block_type_is_a_table_index [C05]");
+        let k: u8 = kani::any();
+        match k % 4 {
+            0 => None,
+            1 => Some(Action::Jump(BadTotalSymbols)),
+            2 => { l.counter = 0; Some(Action::Jump(ReadLitlenDistTablesCodeSize)) }
+            _ => { l.counter = 0; Some(Action::Jump(DecodeLitlen)) }
+        }
+    }
+
+    macro_rules! arm_ctx {
+        ($r:ident, $l:ident, $inb:ident, $inl:ident, $ioff:ident, $out:ident, $out0:ident, $outl:ident, $pos:ident, $budget:ident, $flags:ident, $mask:ident, $st:expr) => {
+            let mut $r = any_decompressor($st);
+            let $l = any_l();
+            let $inb: [u8; AIN] = kani::any();
+            let $inl: usize = kani::any();
+            let $ioff: usize = kani::any();
+            kani::assume($inl <= AIN && $ioff <= $inl);
+            let mut $out: [u8; AOUT] = kani::any();
+            let $out0 = $out;
+            let $outl: usize = kani::any();
+            let $pos: usize = kani::any();
+            let $budget: usize = kani::any();
+            let $flags: u32 = kani::any();
+            kani::assume($outl <= AOUT && $pos <= $outl);
+            let flat = $flags & TINFL_FLAG_USING_NON_WRAPPING_OUTPUT_BUF != 0;
+            kani::assume(flat || matches!($outl, 0 | 1 | 2 | 4 | 8 | 16 | 32));
+            let $mask: usize = if flat { usize::MAX } else { $outl.saturating_sub(1) };
+        };
+    }
+    /// generic per-arm postcondition: registers stay well formed, output written only inside [pos, max), truthful
+    /// starvation / has-more-output statuses.
+    fn arm_generic_post(a: &Action, l1: &LocalVars, in1: &InputWrapper, ob1: &OutputBuffer, out0: &[u8; AOUT], pos: usize, budget: usize, outl: usize, flags: u32, in_avail: usize) {
+        assert!(inv_l(l1), "OBL:arms.registers_stay_well_formed [C05]");
+        let p1 = ob1.position();
+        let maxp = core::cmp::min(pos.saturating_add(budget), outl);
+        assert!(p1 >= pos && (p1 <= maxp || p1 == pos), "OBL:arms.position_stays_inside_granted_window [C05 C08]");
+        let k: usize = kani::any();
+        kani::assume(k < AOUT);
+        if k < outl && (k < pos || k >= p1) { assert!(ob1.get_ref()[k] == out0[k], "OBL:arms.bytes_outside_written_range_unchanged [C08]"); }
+        match a {
+            Action::End(TINFLStatus::NeedsMoreInput) => assert!(in1.bytes_left() == 0 && flags & TINFL_FLAG_HAS_MORE_INPUT != 0, "OBL:arms.needs_more_input_only_when_all_input_consumed [C04 C08 C13]"),
+            Action::End(TINFLStatus::FailedCannotMakeProgress) => assert!(in1.bytes_left() == 0 && flags & TINFL_FLAG_HAS_MORE_INPUT == 0, "OBL:arms.cannot_make_progress_only_when_input_exhausted_and_no_more_announced [C04 C13]"),
+            Action::End(TINFLStatus::HasMoreOutput) => assert!(ob1.bytes_left() == 0, "OBL:arms.has_more_output_only_when_window_full [C08 C13]"),
+            _ => {}
+        }
+    }
+
+    // ---- stored blocks ----
+    #[kani::proof]
+    #[kani::unwind(10)]
+    fn k_arm_raw_header() {
+        arm_ctx!(r, l, inb, inl, ioff, out, out0, outl, pos, budget, flags, mask, RawHeader);
+        let in_iter = InputWrapper::from_slice(&inb[ioff..inl]);
+        let ob = OutputBuffer::from_slice_pos_and_max(&mut out[..outl], pos, budget);
+        kani::assume(l.counter <= 4 && (l.num_bits & 7 == 0) && l.num_bits <= 56); // established by BlockTypeNoCompression (pad_to_bytes) + this arm
+        let rh0 = r.raw_header;
+        let (v0, n0) = bits_view(&l, &inb[ioff..inl]);
+        let (a, l1, in1, ob1, st1) = verif_arm_RawHeader(&mut r, l, in_iter, ob, flags, mask, &inb[..inl], RawHeader);
+        arm_generic_post(&a, &l1, &in1, &ob1, &out0, pos, budget, outl, flags, inl - ioff);
+        if l.counter < 4 {
+            match a {
+                Action::None => {
+                    assert!(l1.counter == l.counter + 1 && r.raw_header[l.counter as usize] as u128 == v0 & 0xFF, "OBL:arms.raw_header_reads_next_byte_of_bit_stream [C03]");
+                    let (v1, n1) = bits_view(&l1, in1.as_slice());
+                    assert!(n1 + 8 == n0 && v1 == v0 >> 8, "OBL:arms.raw_header_consumes_exactly_8_bits [C03 C06]");
+                }
+                Action::End(_) => assert!(n0 < 8 && l1.counter == l.counter && r.raw_header == rh0, "OBL:arms.raw_header_starved_changes_nothing [C07]"),
+                _ => assert!(false, "OBL:arms.raw_header_only_none_or_end_while_reading [C04]"),
+            }
+        } else {
+            let len = rh0[0] as u32 | (rh0[1] as u32) << 8;
+            let nlen = rh0[2] as u32 | (rh0[3] as u32) << 8;
+            if len != (!nlen & 0xFFFF) {
+                assert!(matches!(a, Action::Jump(BadRawLength)), "OBL:arms.stored_length_check_failure_is_rejected [C04]");
+            } else if len == 0 {
+                assert!(matches!(a, Action::Jump(BlockDone)), "OBL:arms.empty_stored_block_is_done [C03 C12]");
+            } else {
+                assert!(l1.counter == len, "OBL:arms.stored_length_taken_from_header [C03]");
+                assert!(if l.num_bits != 0 { matches!(a, Action::Jump(RawReadFirstByte)) } else { matches!(a, Action::Jump(RawMemcpy1)) }, "OBL:arms.stored_bytes_in_bit_buffer_are_emitted_first [C03]");
+            }
+            assert!(in1.bytes_left() == inl - ioff && ob1.position() == pos, "OBL:arms.raw_header_check_consumes_nothing [C06]");
+        }
+        kani::cover!(matches!(a, Action::Jump(RawMemcpy1)), "COV:arms.raw_header_memcpy");
+        kani::cover!(matches!(a, Action::End(_)), "COV:arms.raw_header_starved");
+    }
+
+    #[kani::proof]
+    #[kani::unwind(10)]
+    fn k_arm_raw_memcpy() {
+        // RawMemcpy1
+        {
+            arm_ctx!(r, l, inb, inl, ioff, out, out0, outl, pos, budget, flags, mask, RawMemcpy1);
+            let in_iter = InputWrapper::from_slice(&inb[ioff..inl]);
+            let ob = OutputBuffer::from_slice_pos_and_max(&mut out[..outl], pos, budget);
+            let left = ob.bytes_left();
+            let (a, l1, in1, ob1, st1) = verif_arm_RawMemcpy1(&mut r, l, in_iter, ob, flags, mask, &inb[..inl], RawMemcpy1);
+            arm_generic_post(&a, &l1, &in1, &ob1, &out0, pos, budget, outl, flags, inl - ioff);
+            if l.counter == 0 {
+                assert!(matches!(a, Action::Jump(BlockDone)), "OBL:arms.stored_block_complete_is_done_even_when_window_full [C03 C08]");
+            } else if left == 0 {
+                assert!(matches!(a, Action::End(TINFLStatus::HasMoreOutput)), "OBL:arms.stored_copy_out_of_space_is_has_more_output [C07 C08]");
+            } else {
+                assert!(matches!(a, Action::Jump(RawMemcpy2)), "OBL:arms.stored_copy_continues [C03]");
+            }
+            assert!(l1.counter == l.counter && ob1.position() == pos && in1.bytes_left() == inl - ioff, "OBL:arms.raw_memcpy1_is_pure_dispatch [C07]");
+        }
+        // RawMemcpy2
+        {
+            arm_ctx!(r, l, inb, inl, ioff, out, out0, outl, pos, budget, flags, mask, RawMemcpy2);
+            let in_iter = InputWrapper::from_slice(&inb[ioff..inl]);
+            let ob = OutputBuffer::from_slice_pos_and_max(&mut out[..outl], pos, budget);
+            let left = ob.bytes_left();
+            kani::assume(l.counter != 0 && left != 0 && l.counter <= 65535); // established by RawMemcpy1 / RawHeader
+            let (a, l1, in1, ob1, st1) = verif_arm_RawMemcpy2(&mut r, l, in_iter, ob, flags, mask, &inb[..inl], RawMemcpy2);
+            arm_generic_post(&a, &l1, &in1, &ob1, &out0, pos, budget, outl, flags, inl - ioff);
+            let avail = inl - ioff;
+            if avail == 0 {
+                assert!(matches!(a, Action::End(_)) && l1.counter == l.counter && ob1.position() == pos, "OBL:arms.stored_copy_starved_changes_nothing [C07 C04]");
+            } else {
+                let n = core::cmp::min(core::cmp::min(left, avail), l.counter as usize);
+                assert!(matches!(a, Action::Jump(RawMemcpy1)) && ob1.position() == pos + n && in1.bytes_left() == avail - n && l1.counter == l.counter - n as u32,
+                    "OBL:arms.stored_copy_moves_min_space_input_remaining [C03 C07 C08]");
+                let k: usize = kani::any();
+                kani::assume(k < n);
+                assert!(ob1.get_ref()[pos + k] == inb[ioff + k], "OBL:arms.stored_copy_is_verbatim [C03]");
+            }
+        }
+    }
+
+    #[kani::proof]
+    #[kani::unwind(10)]
+    fn k_arm_raw_first_byte() {
+        // RawReadFirstByte: takes 8 bits from the bit stream into l.dist
+        {
+            arm_ctx!(r, l, inb, inl, ioff, out, out0, outl, pos, budget, flags, mask, RawReadFirstByte);
+            let in_iter = InputWrapper::from_slice(&inb[ioff..inl]);
+            let ob = OutputBuffer::from_slice_pos_and_max(&mut out[..outl], pos, budget);
+            kani::assume(l.num_bits <= 56);
+            let (v0, n0) = bits_view(&l, &inb[ioff..inl]);
+            let (a, l1, in1, ob1, st1) = verif_arm_RawReadFirstByte(&mut r, l, in_iter, ob, flags, mask, &inb[..inl], RawReadFirstByte);
+            arm_generic_post(&a, &l1, &in1, &ob1, &out0, pos, budget, outl, flags, inl - ioff);
+            match a {
+                Action::Jump(RawStoreFirstByte) => assert!(n0 >= 8 && l1.dist as u128 == v0 & 0xFF && l1.counter == l.counter, "OBL:arms.raw_first_byte_is_next_8_bits [C03]"),
+                Action::End(_) => assert!(n0 < 8 && l1.counter == l.counter, "OBL:arms.raw_first_byte_starved [C07]"),
+                _ => assert!(false, "OBL:arms.raw_first_byte_outcomes [C04]"),
+            }
+        }
+        // RawStoreFirstByte
+        {
+            arm_ctx!(r, l, inb, inl, ioff, out, out0, outl, pos, budget, flags, mask, RawStoreFirstByte);
+            let in_iter = InputWrapper::from_slice(&inb[ioff..inl]);
+            let ob = OutputBuffer::from_slice_pos_and_max(&mut out[..outl], pos, budget);
+            let left = ob.bytes_left();
+            kani::assume(l.counter >= 1);
+            let (a, l1, in1, ob1, st1) = verif_arm_RawStoreFirstByte(&mut r, l, in_iter, ob, flags, mask, &inb[..inl], RawStoreFirstByte);
+            arm_generic_post(&a, &l1, &in1, &ob1, &out0, pos, budget, outl, flags, inl - ioff);
+            if left == 0 {
+                assert!(matches!(a, Action::End(TINFLStatus::HasMoreOutput)) && l1.counter == l.counter && l1.dist == l.dist, "OBL:arms.raw_store_out_of_space_keeps_pending_byte [C07 C08]");
+            } else {
+                assert!(ob1.position() == pos + 1 && ob1.get_ref()[pos] == l.dist as u8 && l1.counter == l.counter - 1, "OBL:arms.raw_store_writes_the_pending_byte [C03]");
+                assert!(if l1.counter == 0 || l1.num_bits == 0 { matches!(a, Action::Jump(RawMemcpy1)) } else { matches!(a, Action::Jump(RawReadFirstByte)) }, "OBL:arms.raw_store_next_state [C03]");
+            }
+        }
+    }
+
+    // ---- match copy arms (apply_match / transfer behind contract models) ----
+    #[kani::proof]
+    #[kani::unwind(10)]
+    #[kani::stub(transfer, model_transfer)]
+    #[kani::stub(apply_match, model_apply_match)]
+    fn k_arm_write_len_bytes_to_end() {
+        use ::core::sync::atomic::Ordering::Relaxed;
+        arm_ctx!(r, l, inb, inl, ioff, out, out0, outl, pos, budget, flags, mask, WriteLenBytesToEnd);
+        let in_iter = InputWrapper::from_slice(&inb[ioff..inl]);
+        let ob = OutputBuffer::from_slice_pos_and_max(&mut out[..outl], pos, budget);
+        let left = ob.bytes_left();
+        // what HuffDecodeOuterLoop2 established before deferring here: a pending copy of 1..=258 bytes at distance
+        // 1..=32768 that does not reach beyond the buffer; the output position may have been changed by the caller
+        // between calls (any start position), which is exactly what C05 quantifies over.
+        kani::assume(l.counter >= 1 && l.counter <= 258 && l.dist >= 1 && l.dist <= 32768);
+        let flat = flags & TINFL_FLAG_USING_NON_WRAPPING_OUTPUT_BUF != 0;
+        let unreachable_source = (flat && l.dist as usize > pos) || l.dist as usize > outl;
+        let (a, l1, in1, ob1, st1) = verif_arm_WriteLenBytesToEnd(&mut r, l, in_iter, ob, flags, mask, &inb[..inl], WriteLenBytesToEnd);
+        arm_generic_post(&a, &l1, &in1, &ob1, &out0, pos, budget, outl, flags, inl - ioff);
+        if unreachable_source {
+            assert!(matches!(a, Action::Jump(DistanceOutOfBounds)) && AM_CALLS.load(Relaxed) == 0 && ob1.position() == pos, "OBL:arms.resumed_match_with_unreachable_source_is_rejected_not_panicking [C05 C04]");
+        } else if left == 0 {
+            assert!(matches!(a, Action::End(TINFLStatus::HasMoreOutput)) && l1.counter == l.counter && l1.dist == l.dist && AM_CALLS.load(Relaxed) == 0, "OBL:arms.partial_match_out_of_space_keeps_remaining_copy [C07 C08]");
+        } else {
+            let n = core::cmp::min(left, l.counter as usize);
+            assert!(AM_CALLS.load(Relaxed) == 1 && AM_POS.load(Relaxed) == pos && AM_LEN.load(Relaxed) == n && AM_SRC.load(Relaxed) == pos.wrapping_sub(l.dist as usize) & mask,
+                "OBL:arms.partial_match_copies_min_space_remaining_from_distance_back [C03 C07]");
+            assert!(ob1.position() == pos + n && l1.counter == l.counter - n as u32 && l1.dist == l.dist, "OBL:arms.partial_match_bookkeeping [C07 C08]");
+            assert!(if l1.counter == 0 { matches!(a, Action::Jump(DecodeLitlen)) } else { matches!(a, Action::None) }, "OBL:arms.partial_match_next_state [C07]");
+        }
+        assert!(in1.bytes_left() == inl - ioff, "OBL:arms.partial_match_consumes_no_input [C06]");
+    }
+
+    #[kani::proof]
+    #[kani::unwind(10)]
+    #[kani::stub(transfer, model_transfer)]
+    #[kani::stub(apply_match, model_apply_match)]
+    fn k_arm_huff_decode_outer_loop2() {
+        use ::core::sync::atomic::Ordering::Relaxed;
+        arm_ctx!(r, l, inb, inl, ioff, out, out0, outl, pos, budget, flags, mask, HuffDecodeOuterLoop2);
+        let in_iter = InputWrapper::from_slice(&inb[ioff..inl]);
+        let ob = OutputBuffer::from_slice_pos_and_max(&mut out[..outl], pos, budget);
+        let left = ob.bytes_left();
+        kani::assume(l.counter >= 3 && l.counter <= 258 && l.dist >= 1 && l.dist <= 32768); // K-tables + ReadExtraBits arms
+        let (a, l1, in1, ob1, st1) = verif_arm_HuffDecodeOuterLoop2(&mut r, l, in_iter, ob, flags, mask, &inb[..inl], HuffDecodeOuterLoop2);
+        arm_generic_post(&a, &l1, &in1, &ob1, &out0, pos, budget, outl, flags, inl - ioff);
+        let flat = flags & TINFL_FLAG_USING_NON_WRAPPING_OUTPUT_BUF != 0;
+        if (flat && l.dist as usize > pos) || l.dist as usize > outl {
+            assert!(matches!(a, Action::Jump(DistanceOutOfBounds)) && AM_CALLS.load(Relaxed) == 0 && ob1.position() == pos, "OBL:arms.distance_before_start_or_beyond_buffer_is_rejected [C04 C05]");
+        } else {
+            match a {
+                Action::Jump(DecodeLitlen) => {
+                    assert!(AM_CALLS.load(Relaxed) == 1 && AM_POS.load(Relaxed) == pos && AM_LEN.load(Relaxed) == l.counter as usize && ob1.position() == pos + l.counter as usize,
+                        "OBL:arms.whole_match_copied_when_it_fits [C03 C08]");
+                    assert!(l.counter as usize <= left, "OBL:arms.whole_match_only_when_it_fits_the_granted_window [C08]");
+                }
+                Action::Jump(WriteLenBytesToEnd) => assert!(AM_CALLS.load(Relaxed) == 0 && ob1.position() == pos && l1.counter == l.counter && l1.dist == l.dist, "OBL:arms.match_deferred_untouched_to_partial_copy [C07]"),
+                _ => assert!(false, "OBL:arms.match_outcomes [C04]"),
+            }
+        }
+        kani::cover!(matches!(a, Action::Jump(DecodeLitlen)), "COV:arms.whole_match");
+        kani::cover!(matches!(a, Action::Jump(WriteLenBytesToEnd)), "COV:arms.deferred_match");
+    }
+
+    // ---- symbol classification arms against the RFC ----
+    #[kani::proof]
+    #[kani::unwind(10)]
+    fn k_arm_symbols() {
+        // HuffDecodeOuterLoop1
+        {
+            arm_ctx!(r, l, inb, inl, ioff, out, out0, outl, pos, budget, flags, mask, HuffDecodeOuterLoop1);
+            let in_iter = InputWrapper::from_slice(&inb[ioff..inl]);
+            let ob = OutputBuffer::from_slice_pos_and_max(&mut out[..outl], pos, budget);
+            kani::assume(l.counter & 511 >= 256); // WriteSymbol / DecodeLitlen only come here with a non-literal
+            let (a, l1, in1, ob1, st1) = verif_arm_HuffDecodeOuterLoop1(&mut r, l, in_iter, ob, flags, mask, &inb[..inl], HuffDecodeOuterLoop1);
+            arm_generic_post(&a, &l1, &in1, &ob1, &out0, pos, budget, outl, flags, inl - ioff);
+            let sym = l.counter & 511;
+            if sym == 256 { assert!(matches!(a, Action::Jump(BlockDone)), "OBL:arms.symbol_256_ends_the_block [C03]"); }
+            else if sym > 285 { assert!(matches!(a, Action::Jump(InvalidLitlen)), "OBL:arms.undefined_length_symbols_286_287_rejected [C04]"); }
+            else {
+                let i = (sym - 257) as usize;
+                assert!(l1.counter == RFC_LEN_BASE[i] as u32 && l1.num_extra == RFC_LEN_EXTRA[i], "OBL:arms.length_symbol_decodes_per_rfc [C03]");
+                assert!(if RFC_LEN_EXTRA[i] != 0 { matches!(a, Action::Jump(ReadExtraBitsLitlen)) } else { matches!(a, Action::Jump(DecodeDistance)) }, "OBL:arms.length_symbol_next_state [C03]");
+            }
+        }
+        // WriteSymbol
+        {
+            arm_ctx!(r, l, inb, inl, ioff, out, out0, outl, pos, budget, flags, mask, WriteSymbol);
+            let in_iter = InputWrapper::from_slice(&inb[ioff..inl]);
+            let ob = OutputBuffer::from_slice_pos_and_max(&mut out[..outl], pos, budget);
+            let left = ob.bytes_left();
+            let (a, l1, in1, ob1, st1) = verif_arm_WriteSymbol(&mut r, l, in_iter, ob, flags, mask, &inb[..inl], WriteSymbol);
+            arm_generic_post(&a, &l1, &in1, &ob1, &out0, pos, budget, outl, flags, inl - ioff);
+            if l.counter >= 256 { assert!(matches!(a, Action::Jump(HuffDecodeOuterLoop1)) && ob1.position() == pos, "OBL:arms.non_literal_goes_to_length_decoding [C03]"); }
+            else if left > 0 { assert!(matches!(a, Action::Jump(DecodeLitlen)) && ob1.position() == pos + 1 && ob1.get_ref()[pos] == l.counter as u8, "OBL:arms.literal_written [C03 C08]"); }
+            else { assert!(matches!(a, Action::End(TINFLStatus::HasMoreOutput)) && l1.counter == l.counter, "OBL:arms.literal_out_of_space_kept_pending [C07 C08]"); }
+        }
+        // ReadExtraBitsLitlen / ReadExtraBitsDistance
+        {
+            arm_ctx!(r, l, inb, inl, ioff, out, out0, outl, pos, budget, flags, mask, ReadExtraBitsLitlen);
+            let in_iter = InputWrapper::from_slice(&inb[ioff..inl]);
+            let ob = OutputBuffer::from_slice_pos_and_max(&mut out[..outl], pos, budget);
+            kani::assume(l.num_extra >= 1 && l.num_extra <= 13 && l.num_bits <= 56 && l.counter <= 258 && l.dist <= 24577);
+            let (v0, n0) = bits_view(&l, &inb[ioff..inl]);
+            let which: bool = kani::any();
+            let (a, l1, in1, ob1, st1) = if which { verif_arm_ReadExtraBitsLitlen(&mut r, l, in_iter, ob, flags, mask, &inb[..inl], ReadExtraBitsLitlen) }
+                else { verif_arm_ReadExtraBitsDistance(&mut r, l, in_iter, ob, flags, mask, &inb[..inl], ReadExtraBitsDistance) };
+            arm_generic_post(&a, &l1, &in1, &ob1, &out0, pos, budget, outl, flags, inl - ioff);
+            let ne = l.num_extra as u32;
+            match a {
+                Action::Jump(DecodeDistance) => assert!(which && n0 >= ne && l1.counter as u128 == l.counter as u128 + (v0 & ((1u128 << ne) - 1)) && l1.dist == l.dist, "OBL:arms.length_extra_bits_added_lsb_first [C03]"),
+                Action::Jump(HuffDecodeOuterLoop2) => assert!(!which && n0 >= ne && l1.dist as u128 == l.dist as u128 + (v0 & ((1u128 << ne) - 1)) && l1.counter == l.counter, "OBL:arms.distance_extra_bits_added_lsb_first [C03]"),
+                Action::End(_) => assert!(n0 < ne && l1.counter == l.counter && l1.dist == l.dist && l1.num_extra == l.num_extra, "OBL:arms.extra_bits_starved_keeps_registers [C07]"),
+                _ => assert!(false, "OBL:arms.extra_bits_outcomes [C04]"),
+            }
+            if !matches!(a, Action::End(_)) {
+                let (v1, n1) = bits_view(&l1, in1.as_slice());
+                assert!(n1 + ne == n0 && v1 == v0 >> ne, "OBL:arms.extra_bits_consume_exactly_num_extra_bits [C03 C06]");
+            } else {
+                let (v1, n1) = bits_view(&l1, in1.as_slice());
+                assert!(n1 == n0 && v1 == v0, "OBL:arms.starved_reader_leaves_unread_bit_stream_unchanged [C07]");
+            }
+        }
+    }
+
+    // ---- block header, table sizes, zlib header, end of stream ----
+    #[kani::proof]
+    #[kani::unwind(10)]
+    #[kani::stub(init_tree, model_init_tree)]
+    fn k_arm_block_header() {
+        // ReadBlockHeader
+        {
+            arm_ctx!(r, l, inb, inl, ioff, out, out0, outl, pos, budget, flags, mask, ReadBlockHeader);
+            let in_iter = InputWrapper::from_slice(&inb[ioff..inl]);
+            let ob = OutputBuffer::from_slice_pos_and_max(&mut out[..outl], pos, budget);
+            kani::assume(l.num_bits <= 56);
+            let (v0, n0) = bits_view(&l, &inb[ioff..inl]);
+            let (a, l1, in1, ob1, st1) = verif_arm_ReadBlockHeader(&mut r, l, in_iter, ob, flags, mask, &inb[..inl], ReadBlockHeader);
+            arm_generic_post(&a, &l1, &in1, &ob1, &out0, pos, budget, outl, flags, inl - ioff);
+            if n0 < 3 {
+                assert!(matches!(a, Action::End(_)), "OBL:arms.block_header_starved [C04 C07]");
+            } else {
+                let bfinal = (v0 & 1) as u8;
+                let btype = ((v0 >> 1) & 3) as u8;
+                assert!(r.finish == bfinal, "OBL:arms.bfinal_bit_recorded [C03 C06]");
+                match btype {
+                    0 => assert!(matches!(a, Action::Jump(BlockTypeNoCompression)), "OBL:arms.block_type_0_is_stored [C03]"),
+                    1 => assert!(IT_CALLS.load(::core::sync::atomic::Ordering::Relaxed) == 1 && r.table_sizes[0] == 288 && r.table_sizes[1] == 32 && r.block_type == 1, "OBL:arms.block_type_1_builds_fixed_tables [C03]"),
+                    2 => assert!(matches!(a, Action::Jump(ReadTableSizes)) && l1.counter == 0, "OBL:arms.block_type_2_reads_table_sizes [C03]"),
+                    _ => assert!(matches!(a, Action::Jump(BlockTypeUnexpected)), "OBL:arms.reserved_block_type_3_rejected [C04]"),
+                }
+                let (v1, n1) = bits_view(&l1, in1.as_slice());
+                assert!(n1 + 3 == n0 && v1 == v0 >> 3, "OBL:arms.block_header_consumes_exactly_3_bits [C03 C06]");
+            }
+        }
+        // ReadTableSizes: limits 286 / 30
+        {
+            arm_ctx!(r, l, inb, inl, ioff, out, out0, outl, pos, budget, flags, mask, ReadTableSizes);
+            let in_iter = InputWrapper::from_slice(&inb[ioff..inl]);
+            let ob = OutputBuffer::from_slice_pos_and_max(&mut out[..outl], pos, budget);
+            kani::assume(l.counter <= 3 && l.num_bits <= 56);
+            let (v0, n0) = bits_view(&l, &inb[ioff..inl]);
+            let ts0 = r.table_sizes;
+            let (a, l1, in1, ob1, st1) = verif_arm_ReadTableSizes(&mut r, l, in_iter, ob, flags, mask, &inb[..inl], ReadTableSizes);
+            arm_generic_post(&a, &l1, &in1, &ob1, &out0, pos, budget, outl, flags, inl - ioff);
+            if l.counter < 3 {
+                let nb = [5u32, 5, 4][l.counter as usize];
+                let base = [257u32, 1, 4][l.counter as usize];
+                if n0 >= nb {
+                    assert!(matches!(a, Action::None) && r.table_sizes[l.counter as usize] as u128 == base as u128 + (v0 & ((1u128 << nb) - 1)) && l1.counter == l.counter + 1, "OBL:arms.hlit_hdist_hclen_fields_per_rfc [C03]");
+                } else {
+                    assert!(matches!(a, Action::End(_)) && r.table_sizes == ts0 && l1.counter == l.counter, "OBL:arms.table_sizes_starved [C07]");
+                }
+            } else {
+                let ok = ts0[0] <= 286 && ts0[1] <= 30;
+                assert!(if ok { matches!(a, Action::Jump(ReadHufflenTableCodeSize)) } else { matches!(a, Action::Jump(BadDistOrLiteralTableLength)) }, "OBL:arms.more_than_286_litlen_or_30_dist_codes_rejected [C04]");
+                let k: usize = kani::any();
+                kani::assume(k < 19);
+                assert!(r.code_size_huffman[k] == 0 && l1.counter == 0, "OBL:arms.code_length_code_sizes_cleared [C03 C18]");
+            }
+        }
+    }
+
+    #[kani::proof]
+    #[kani::unwind(10)]
+    fn k_arm_start_and_zlib_header() {
+        // Start: re-initialises every register the next stream depends on (C18)
+        {
+            arm_ctx!(r, l, inb, inl, ioff, out, out0, outl, pos, budget, flags, mask, Start);
+            let in_iter = InputWrapper::from_slice(&inb[ioff..inl]);
+            let ob = OutputBuffer::from_slice_pos_and_max(&mut out[..outl], pos, budget);
+            let (a, l1, in1, ob1, st1) = verif_arm_Start(&mut r, l, in_iter, ob, flags, mask, &inb[..inl], Start);
+            arm_generic_post(&a, &l1, &in1, &ob1, &out0, pos, budget, outl, flags, inl - ioff);
+            assert!(l1.bit_buf == 0 && l1.num_bits == 0 && l1.dist == 0 && l1.counter == 0 && l1.num_extra == 0, "OBL:arms.start_clears_registers [C18]");
+            assert!(r.z_header0 == 0 && r.z_header1 == 0 && r.z_adler32 == 1 && r.check_adler32 == 1, "OBL:arms.start_resets_header_fields_and_checksums [C18 C16]");
+            assert!(if flags & TINFL_FLAG_PARSE_ZLIB_HEADER != 0 { matches!(a, Action::Jump(ReadZlibCmf)) } else { matches!(a, Action::Jump(ReadBlockHeader)) }, "OBL:arms.start_parses_zlib_header_iff_requested [C09]");
+            assert!(in1.bytes_left() == inl - ioff && ob1.position() == pos, "OBL:arms.start_consumes_nothing [C06]");
+        }
+        // ReadZlibCmf / ReadZlibFlg
+        {
+            arm_ctx!(r, l, inb, inl, ioff, out, out0, outl, pos, budget, flags, mask, ReadZlibFlg);
+            let in_iter = InputWrapper::from_slice(&inb[ioff..inl]);
+            let ob = OutputBuffer::from_slice_pos_and_max(&mut out[..outl], pos, budget);
+            kani::assume(r.z_header0 < 256);
+            let cmf = r.z_header0;
+            let (a, l1, in1, ob1, st1) = verif_arm_ReadZlibFlg(&mut r, l, in_iter, ob, flags, mask, &inb[..inl], ReadZlibFlg);
+            arm_generic_post(&a, &l1, &in1, &ob1, &out0, pos, budget, outl, flags, inl - ioff);
+            if inl == ioff { assert!(matches!(a, Action::End(_)), "OBL:arms.zlib_flg_starved [C04]"); }
+            else {
+                let flg = inb[ioff] as u32;
+                let flat = flags & TINFL_FLAG_USING_NON_WRAPPING_OUTPUT_BUF != 0;
+                let fits = flat || (cmf >> 4) > 7 || mask + 1 >= (1usize << ((cmf >> 4) + 8));
+                let ok = rfc_zlib_hdr_ok(cmf, flg) && fits;
+                assert!(r.z_header1 == flg && in1.bytes_left() == inl - ioff - 1, "OBL:arms.zlib_flg_byte_recorded [C09]");
+                assert!(if ok { matches!(a, Action::Jump(ReadBlockHeader)) } else { matches!(a, Action::Jump(BadZlibHeader)) }, "OBL:arms.zlib_header_accepted_iff_valid_per_rfc1950_and_window_fits [C04 C09]");
+            }
+        }
+        {
+            arm_ctx!(r, l, inb, inl, ioff, out, out0, outl, pos, budget, flags, mask, ReadZlibCmf);
+            let in_iter = InputWrapper::from_slice(&inb[ioff..inl]);
+            let ob = OutputBuffer::from_slice_pos_and_max(&mut out[..outl], pos, budget);
+            let (a, l1, in1, ob1, st1) = verif_arm_ReadZlibCmf(&mut r, l, in_iter, ob, flags, mask, &inb[..inl], ReadZlibCmf);
+            arm_generic_post(&a, &l1, &in1, &ob1, &out0, pos, budget, outl, flags, inl - ioff);
+            if inl == ioff { assert!(matches!(a, Action::End(_)), "OBL:arms.zlib_cmf_starved [C04]"); }
+            else { assert!(matches!(a, Action::Jump(ReadZlibFlg)) && r.z_header0 == inb[ioff] as u32 && in1.bytes_left() == inl - ioff - 1, "OBL:arms.zlib_cmf_byte_recorded [C09]"); }
+        }
+    }
+
+    #[kani::proof]
+    #[kani::unwind(10)]
+    fn k_arm_block_done_and_adler() {
+        // BlockDone
+        {
+            arm_ctx!(r, l, inb, inl, ioff, out, out0, outl, pos, budget, flags, mask, BlockDone);
+            let in_iter = InputWrapper::from_slice(&inb[ioff..inl]);
+            let ob = OutputBuffer::from_slice_pos_and_max(&mut out[..outl], pos, budget);
+            kani::assume(l.num_bits <= 56);
+            // ASSUMED history invariant (DESIGN.md §4 C06): every whole byte still in the bit buffer was read during
+            // the current call, so the end-of-stream rewind is never clamped (the real code debug_asserts it)
+            kani::assume(r.finish == 0 || (l.num_bits / 8) as usize <= ioff);
+            let fin = r.finish;
+            let (a, l1, in1, ob1, st1) = verif_arm_BlockDone(&mut r, l, in_iter, ob, flags, mask, &inb[..inl], BlockDone);
+            assert!(inv_l(&l1) && ob1.position() == pos, "OBL:arms.block_done_writes_nothing [C08]");
+            if fin == 0 {
+                assert!(matches!(a, Action::Jump(ReadBlockHeader)) && in1.bytes_left() == inl - ioff && l1.num_bits == l.num_bits, "OBL:arms.non_final_block_continues_with_next_header [C03]");
+            } else {
+                // final block: drop the padding bits, give whole unread bytes back to the input
+                let whole = (l.num_bits / 8) as usize;
+                let back = core::cmp::min(whole, ioff);
+                assert!(in1.bytes_left() == inl - ioff + back, "OBL:arms.end_of_stream_returns_whole_unread_bytes_to_input [C06]");
+                assert!(l1.num_bits as usize == (l.num_bits as usize / 8 - back) * 8, "OBL:arms.end_of_stream_discards_padding_bits [C06]");
+                if whole <= ioff { assert!(l1.num_bits == 0 && l1.bit_buf == 0, "OBL:arms.end_of_stream_bit_buffer_empty_when_rewind_unclamped [C06]"); }
+                assert!(if flags & TINFL_FLAG_PARSE_ZLIB_HEADER != 0 { matches!(a, Action::Jump(ReadAdler32)) && l1.counter == 0 } else { matches!(a, Action::Jump(DoneForever)) }, "OBL:arms.zlib_stream_reads_trailer_raw_stream_is_done [C09 C06]");
+            }
+        }
+        // ReadAdler32: 4 bytes, big-endian, from the bit buffer first and then from the input
+        {
+            arm_ctx!(r, l, inb, inl, ioff, out, out0, outl, pos, budget, flags, mask, ReadAdler32);
+            let in_iter = InputWrapper::from_slice(&inb[ioff..inl]);
+            let ob = OutputBuffer::from_slice_pos_and_max(&mut out[..outl], pos, budget);
+            kani::assume(l.counter <= 4 && l.num_bits & 7 == 0 && l.num_bits <= 56);
+            let (v0, n0) = bits_view(&l, &inb[ioff..inl]);
+            let z0 = r.z_adler32;
+            let (a, l1, in1, ob1, st1) = verif_arm_ReadAdler32(&mut r, l, in_iter, ob, flags, mask, &inb[..inl], ReadAdler32);
+            arm_generic_post(&a, &l1, &in1, &ob1, &out0, pos, budget, outl, flags, inl - ioff);
+            if l.counter >= 4 {
+                assert!(matches!(a, Action::Jump(DoneForever)) && r.z_adler32 == z0 && in1.bytes_left() == inl - ioff, "OBL:arms.trailer_complete_after_4_bytes_nothing_more_consumed [C06 C09]");
+            } else if n0 >= 8 {
+                assert!(matches!(a, Action::None) && r.z_adler32 as u128 == ((z0 as u128) << 8 & 0xFFFF_FFFF) | (v0 & 0xFF) && l1.counter == l.counter + 1, "OBL:arms.trailer_bytes_assembled_big_endian [C09]");
+                let (v1, n1) = bits_view(&l1, in1.as_slice());
+                assert!(n1 + 8 == n0, "OBL:arms.trailer_byte_consumes_exactly_8_bits [C06]");
+            } else {
+                assert!(matches!(a, Action::End(_)) && r.z_adler32 == z0 && l1.counter == l.counter, "OBL:arms.trailer_starved_keeps_partial_value [C07]");
+            }
+        }
+    }
+
     //@PLAYBACK@
 }
